@@ -54,7 +54,11 @@ type c07World struct {
 	runner *state.TaskRunner
 }
 
-func c07NewWorld() *c07World {
+func c07NewWorld() *c07World { return c07NewWorldOrder(false) }
+
+// reversed: after hookstate (needed by the others) the managers are constructed in the order devicestate, ifacestate,
+// snapstate, so that the predicates are registered as [hook, gadget, iface, prerequisites]
+func c07NewWorldOrder(reversed bool) *c07World {
 	root, err := os.MkdirTemp(os.Getenv("VERIF_SCRATCH_DIR"), "c07root")
 	if err != nil {
 		panic(err)
@@ -67,14 +71,18 @@ func c07NewWorld() *c07World {
 	if err != nil {
 		panic(err)
 	}
-	if _, err := snapstate.Manager(st, runner); err != nil {
-		panic(err)
+	mk := []func() error{
+		func() error { _, err := snapstate.Manager(st, runner); return err },
+		func() error { _, err := ifacestate.Manager(st, hookMgr, runner, nil, nil); return err },
+		func() error { _, err := devicestate.Manager(st, hookMgr, runner, nil); return err },
 	}
-	if _, err := ifacestate.Manager(st, hookMgr, runner, nil, nil); err != nil {
-		panic(err)
+	if reversed {
+		mk[0], mk[2] = mk[2], mk[0]
 	}
-	if _, err := devicestate.Manager(st, hookMgr, runner, nil); err != nil {
-		panic(err)
+	for _, f := range mk {
+		if err := f(); err != nil {
+			panic(err)
+		}
 	}
 	return &c07World{st: st, runner: runner}
 }
@@ -198,6 +206,31 @@ func TestVerifC07Blocked(t *testing.T) {
 	os.RemoveAll(dirs.GlobalRootDir)
 }
 
+// the same inputs against a runner whose predicates were registered in another order: only the disjunction is compared
+func TestVerifC07BlockedOrder(t *testing.T) {
+	w := c07NewWorldOrder(true)
+	exec := func(in c07BIn) vh.Out {
+		w.st.Lock()
+		defer w.st.Unlock()
+		cand := w.newTask(in.Cand)
+		var running []*state.Task
+		var coqRun []string
+		for _, d := range in.Running {
+			u := w.newTask(d)
+			running = append(running, u)
+			coqRun = append(coqRun, c07Coq(u.ID(), d))
+		}
+		any := false
+		for _, v := range state.VerifBlockedEach(w.runner, cand, running) {
+			any = any || v
+		}
+		return vh.Out{Observed: any, Coq: "(CBlockedAny " + c07Coq(cand.ID(), in.Cand) + " " + vh.CoqList(coqRun) + " " + vh.CoqBool(any) + ")",
+			NonTrivial: any, Tags: []string{"order-blocked-" + strconv.FormatBool(any)}}
+	}
+	vh.Run(c07BGen, exec)
+	os.RemoveAll(dirs.GlobalRootDir)
+}
+
 // ---------------------------------------------------------------- (b) real Ensure passes with stub handlers
 
 type c07Step struct {
@@ -261,6 +294,9 @@ func c07AbortFamily() []c07RIn {
 	var ins []c07RIn
 	for _, p := range pairs {
 		x, y := p[0], p[1]
+		// both tasks in ONE change, independent of each other: `running` also contains tasks of the candidate's own change
+		ins = append(ins, c07RIn{Changes: [][]c07Task{{x, y}}, Chain: []bool{false},
+			Steps: []c07Step{{Ensure: true}, {Ensure: true}, {Finish: 0}, {Ensure: true}, {Ensure: true}}})
 		// aborted by the user
 		ins = append(ins, c07RIn{Changes: [][]c07Task{{x}, {y}}, Chain: []bool{false, false}, Deferred: []bool{false, true},
 			Steps: []c07Step{{Ensure: true}, {Spawn: c07Int(1)}, {Abort: c07Int(0)}, {Ensure: true}, {Ensure: true}, {Finish: 0}, {Ensure: true}, {Ensure: true}}})
@@ -498,6 +534,7 @@ func c07RExec(in c07RIn) vh.Out {
 			if err := w.runner.Ensure(); err != nil {
 				panic(err)
 			}
+			someBlocked := state.VerifSomeBlocked(w.runner)
 
 			after := tombIDs()
 			// wait until every goroutine has reached its stub, so that completions can be chosen deterministically
@@ -546,7 +583,7 @@ func c07RExec(in c07RIn) vh.Out {
 				tags["concurrent-handlers"] = true
 			}
 			g.mu.Lock()
-			cases = append(cases, "(CPass "+vh.CoqList(coqBefore)+" "+g.coqSet(handlersAfter)+" "+g.coqSet(idle)+")")
+			cases = append(cases, "(CPass "+vh.CoqList(coqBefore)+" "+g.coqSet(handlersAfter)+" "+g.coqSet(idle)+" "+vh.CoqBool(someBlocked)+")")
 			g.mu.Unlock()
 		} else {
 			g.mu.Lock()
